@@ -13,10 +13,12 @@ Init == l = 1 /\ bad = <<>> /\ free = <<>> /\ sv = SvInit
 Next == /\ l <= Len(Rec)
         /\ LET e == Rec[l]
                s0 == IF e.first THEN SvInit ELSE sv            \* a new case starts with a fresh view
-               big == e.args.rep # <<>>                 \* large text given as a repeated pattern: judged by the lemma
-               r == IF big THEN [st |-> s0, ret |-> RepDecl(e.args.rep[1].unit, e.args.rep[1].n, Call(e))]
+               big == e.args.rep # <<>> \/ e.args.segs # <<>>   \* large text given as a repeated pattern / as long-line segments: judged by the lemmas
+               r == IF e.args.rep # <<>> THEN [st |-> s0, ret |-> RepDecl(e.args.rep[1].unit, e.args.rep[1].n, Call(e))]
+                    ELSE IF e.args.segs # <<>> THEN [st |-> s0, ret |-> SegDecl(e.args.segs, Call(e))]
                     ELSE Apply(s0, e.args.text, Call(e))
                ok == /\ e.out.k = "ok"
+                     /\ (e.args.segs # <<>> => SegsOK(e.args.segs))
                      /\ e.out.ret = r.ret
                      /\ (~big => r.ret = Decl(e.args.text, Call(e)) /\ IndexConsistent(r.st, e.args.text))
            IN /\ sv' = r.st
